@@ -4,30 +4,74 @@ import vlib
 
 PID = "C16"
 REWRITES = [("pkg/dtls/heartbeat.go", ["-swap", "sync=vsync", "-swap", "sync/atomic=vatomic", "-swap", "time=vtime", "-go", "-chan"]),
-            ("pkg/dtls/sctpconn.go", ["-swap", "sync=vsync", "-swap", "time=vtime", "-chan"])]
-MAIN = ["main.go", "read.go", "stubs.go"]
+            ("pkg/dtls/sctpconn.go", ["-swap", "sync=vsync", "-swap", "time=vtime", "-swap", "github.com/pion/sctp=vsctp", "-chan"]),
+            ("pkg/dtls/listener.go", ["-swap", "sync=vsync", "-swap", "time=vtime", "-swap", "context=vctx", "-swap", "github.com/pion/dtls/v2=vdtls", "-go", "-chan"])]
+MAIN = ["main.go", "read.go", "hbflow.go", "route.go", "cred.go"]
 INJECTS = [("harness/c16/dtls_verif.go", "pkg/dtls/zz_verif_acc.go")] + [("harness/c16/main/" + f, "internal/zzverif_c16/" + f) for f in MAIN]
-ASSUME = []
+ASSUME = ["byte stream (read, hbloss, flow): the real SCTPConn / heartbeat server / heartbeat client run on a scripted message stream with the method set of pion's sctp.Stream (whole-message reads, io.ErrShortBuffer when the buffer is smaller than the message, read deadlines, buffered-amount low-water callback); the modelled association's maximum message size is 4 bytes so that read sizes 1..6 cover below, at and beyond it; threads = reader/writer, recvLoop, hbLoop / sendLoop, modelled network; scheduling points = mutex, atomic, channel, timer, stream I/O; which ready select case fires is a free choice; clock is virtual",
+          "a data message whose bytes equal the heartbeat payload is a heartbeat by construction of the protocol and is not part of the alphabet",
+          "heartbeat timeout is read as the watchdog's documented behaviour: the connection closes at the first interval boundary with no heartbeat in the preceding interval, i.e. no later than two intervals after the last heartbeat",
+          "buffered-amount bound: limit (256 KiB) plus one maximum write (128 KiB), because one low-water token can be left over from an earlier drain",
+          "listener routing (route): pion's server handshake is replaced by a model (vdtls) that calls the listener's GetCertificate / VerifyConnection callbacks in pion's order with scheduling points between flights; its accept/reject behaviour is compared with the real library by the cred families (same secret pairs, forged clients); 'full' mode also replaces pion/sctp by a stand-in that hands the scripted stream to the real acceptSCTP code",
+          "route uses delay-bounded scheduling (d = departures from the default thread order) instead of preemption bounding: with 6-9 short threads the number of free context switches at blocking points explodes",
+          "cred families run the real pion DTLS+SCTP stack free-running over net.Pipe; they enumerate secrets, not schedules; time limits there make a run inconclusive, never a violation"]
 NW = 16
+
+# family -> number of shards
+QUICK = [("read:srv:134h:2:2:p1", 16), ("read:srv:13h:3:1:p1", 8), ("read:cli:134:2:2:p2", 4), ("read:bare:134:3:2:p0", 2),
+         ("hbloss:3:p1", 2),
+         ("flow:bare:Mh:5:p1", 4), ("flow:bare:Mhq10X:3:p2", 16), ("flow:cli:Mh0X:3:p1", 4),
+         ("route:core:2:2:d1", 8), ("route:core:=1/1:d3", 1), ("route:core:=1,2c/1,2:d2", 1), ("route:core:=1,1/1,1:d2", 1),
+         ("route:core:=1c,1/1,f1:d2", 1), ("route:core:=1t,2/s1,2:d2", 1), ("route:core:=1,2/2,3:d2", 1),
+         ("route:full:=1/1:d2", 1), ("route:full:=1,2/1,2:d1", 1), ("route:full:=1,2c/2,1:d1", 1)]
+QUICK_REAL = ["cred:derive", "cred:listener", "cred:direct", "cred:many:9"]
+THOROUGH = [("read:srv:134h2:3:2:p2", 16), ("read:cli:1342:3:2:p2", 16), ("read:bare:1342:4:3:p0", 16),
+            ("hbloss:5:p2", 16),
+            ("flow:bare:Mhq10X:5:p2", 16), ("flow:cli:Mhq0X:4:p2", 16), ("flow:bare:Mh:6:p3", 16),
+            ("route:core:2:2:d2", 16), ("route:core:3:3:d1", 16), ("route:core:=1,2c/1,2:d3", 1), ("route:core:=1c,1/1,1:d3", 1),
+            ("route:core:=1,2,1c/1,2,f1:d2", 1), ("route:full:2:2:d1", 16), ("route:full:=1,2/1,2:d2", 1), ("route:full:=1c,2/1,2:d2", 1)]
+THOROUGH_REAL = ["cred:derive", "cred:listener", "cred:direct", "cred:many:4", "cred:many:9", "cred:many:16", "cred:many:32"]
 
 
 def build():
     return vlib.build("c16", REWRITES, INJECTS, "./internal/zzverif_c16")
 
 
+def build_real():
+    """same harness, nothing rewritten: the real pion DTLS/SCTP stack (cred families only)"""
+    return vlib.build("c16real", [], INJECTS, "./internal/zzverif_c16")
+
+
 def run(tier, seed, t0):
     w = build()
-    budget = 1500 if tier == "thorough" else 120
-    fams = ["read:srv:13h:2:2:p1"]
+    wr = build_real()
+    budget = 1500 if tier == "thorough" else 150
+    fams = QUICK + (THOROUGH if tier == "thorough" else [])
     args = []
-    for f in fams:
-        for i in range(NW):
-            args.append(["-scenario", f, "-tier", tier, "-budget", str(budget), "-shard", str(i), "-shards", str(NW)])
-    res = vlib.run_workers(w, args, timeout=budget + 180)
-    vlib.finish(PID, tier, "model_checking", res, t0, ASSUME, "TODO", seed=seed)
+    for f, n in fams:
+        for i in range(n):
+            args.append(["-scenario", f, "-tier", tier, "-budget", str(budget), "-shard", str(i), "-shards", str(n)])
+    res = vlib.run_workers(w, args, timeout=budget + 300)
+    real = QUICK_REAL if tier == "quick" else THOROUGH_REAL
+    res += vlib.run_workers(wr, [["-scenario", f, "-tier", tier] for f in real], timeout=900, jobs=4)
+    vlib.finish(PID, tier, "model_checking", res, t0, ASSUME,
+                "per family (see scenarios): read = every message sequence up to the stated depth over the size alphabet (heartbeats interleaved anywhere) x every terminal (EOF, reset, data+error, silence) x every cyclic read-size pattern over {1,2,3,4,6} x all interleavings within the preemption bound, oracle: bytes read == concatenation of the peer's data, error only after all of it, no heartbeat surfaces; hbloss = heartbeat trains (count, period, phase) x data arrival sets, oracle on the virtual clock: closed no later than 2 intervals after the last heartbeat, nothing lost before the earliest legitimate close; flow = every write-size sequence x every drain schedule of the modelled network (x close at any moment), oracle: buffered amount <= limit + one write, every write returns, accepted messages == successful writes; route = every multiset of acceptors {secret, cancelled at an arbitrary moment, short timeout} x clients {genuine, unregistered, forged, stalling} x all schedules within the delay bound on the real listener code, oracle: no cross delivery, nothing delivered twice, forged/unregistered never complete, registration maps empty after every accept returned, a completed handshake reaches its sole uncancelled acceptor; cred = secret alphabet squared through the real pion stack",
+                seed=seed)
 
 
 def replay(path):
+    import json
+    d = json.load(open(path))
+    scen = (d.get("replay") or d).get("scenario", "")
+    if scen.startswith("cred"):
+        out = vlib.run_worker(build_real(), ["-scenario", scen], 900)
+        if "error" in out:
+            raise vlib.HarnessError(out["error"])
+        if out["results"][0].get("violations"):
+            print("VIOLATION property=%s replay=%s" % (PID, path))
+            sys.exit(1)
+        print("replay: no violation")
+        sys.exit(0)
     w = build()
     out = vlib.run_worker(w, ["-replay", path], 300)
     if "error" in out:
